@@ -62,14 +62,14 @@ func (fr *Frame) callFn(st *State, site ssa.Instruction, fn *ssa.Function, args 
 		// generic instance not built
 	}
 	full := fn.String()
-	if fr.top {
+	if fr.anchorsOn() {
 		v.lastCallQual = ""
 		if fn.Pkg != nil && fn.Signature.Recv() == nil {
 			v.lastCallQual = fn.Pkg.Pkg.Name() + "." + fn.Name()
 		}
 	}
 	if r, ok := fr.intrinsic(st, site, full, fn, args); ok {
-		if fr.top && fn.Pkg != nil && fn.Pkg.Pkg.Path() == "math/big" {
+		if fr.anchorsOn() && fn.Pkg != nil && fn.Pkg.Pkg.Path() == "math/big" {
 			// modelled math/big calls are visible to cut anchors like any other call
 			for i, a := range args {
 				st.srcVar[fmt.Sprintf("callarg%d", i)] = a
@@ -81,7 +81,7 @@ func (fr *Frame) callFn(st *State, site ssa.Instruction, fn *ssa.Function, args 
 		return r
 	}
 	key := v.funcKey(fn)
-	if fr.top {
+	if fr.anchorsOn() {
 		for i, a := range args {
 			if t := argTypeOf(fn, i); t != nil {
 				a = wrapTyped(a, t) // struct arguments passed by value keep their type (field selection in specifications)
@@ -94,14 +94,14 @@ func (fr *Frame) callFn(st *State, site ssa.Instruction, fn *ssa.Function, args 
 	var res Value
 	// methods of abstract (ring-element) types are interpreted by their ring meaning
 	if r, ok := fr.bigCall(st, fn, args); ok {
-		if fr.top {
+		if fr.anchorsOn() {
 			fr.bindCallResultSig(st, r, fn.Signature)
 			fr.anchor(st, "call", fn.Name(), -1)
 		}
 		return r
 	}
 	if r, ok := fr.ringCall(st, fn, args); ok {
-		if fr.top {
+		if fr.anchorsOn() {
 			fr.bindCallResultSig(st, r, fn.Signature)
 			fr.anchor(st, "call", fn.Name(), -1)
 		}
@@ -116,7 +116,7 @@ func (fr *Frame) callFn(st *State, site ssa.Instruction, fn *ssa.Function, args 
 		}
 		if sameLayer && len(c.Lets) == 0 {
 			res = fr.applyContract(st, site, c, fn, args)
-			if fr.top {
+			if fr.anchorsOn() {
 				fr.bindCallResultSig(st, res, fn.Signature)
 				fr.anchor(st, "call", fn.Name(), -1)
 			}
@@ -125,7 +125,7 @@ func (fr *Frame) callFn(st *State, site ssa.Instruction, fn *ssa.Function, args 
 	}
 	if v.opaqueOK(fn) {
 		res = fr.opaqueCall(st, site, fn, args)
-		if fr.top {
+		if fr.anchorsOn() {
 			fr.bindCallResultSig(st, res, fn.Signature)
 			fr.anchor(st, "call", fn.Name(), -1)
 		}
@@ -135,7 +135,7 @@ func (fr *Frame) callFn(st *State, site ssa.Instruction, fn *ssa.Function, args 
 		unsup("call to %s: no Go body and no contract", key)
 	}
 	res = fr.inline(st, fn, args, bindings)
-	if fr.top {
+	if fr.anchorsOn() {
 		fr.bindCallResultSig(st, res, fn.Signature)
 		fr.anchor(st, "call", fn.Name(), -1)
 	}
@@ -146,9 +146,15 @@ func (fr *Frame) anchorCallPre(st *State, fn *ssa.Function) {}
 
 type retKeyT struct{ ssa.Value }
 
+// anchorsOn: the calls made by this frame are anchors for the cuts of the contract under analysis
+func (fr *Frame) anchorsOn() bool { return fr.top || fr.anchors }
+
 func (fr *Frame) inline(st *State, fn *ssa.Function, args []Value, bindings []Value) Value {
 	v := fr.v
 	nf := v.newFrame(fn, fr)
+	if v.inlineNames[fn.Name()] && fr.anchorsOn() {
+		nf.anchors = true
+	}
 	env := map[ssa.Value]Value{}
 	if len(args) != len(fn.Params) {
 		unsup("arity mismatch calling %s", fn.Name())
@@ -348,7 +354,7 @@ func (fr *Frame) applyContract(st *State, site ssa.Instruction, c *Contract, fn 
 			}
 		}
 	}
-	if fr.top {
+	if fr.anchorsOn() {
 		if st.cnt == nil {
 			st.cnt = map[string]int{}
 		}
@@ -416,7 +422,7 @@ func (fr *Frame) applyContract(st *State, site ssa.Instruction, c *Contract, fn 
 			for n, t := range se2.ghostLocal {
 				se2.ghostLocal[n] = F.Subst(t, def)
 			}
-			if fr.top {
+			if fr.anchorsOn() {
 				for n, t := range st.ghosts {
 					if strings.HasPrefix(n, fn.Name()+"_") {
 						st.ghosts[n] = F.Subst(t, def)
@@ -843,7 +849,7 @@ func (fr *Frame) invokeAbstract(st *State, site ssa.Instruction, iv *IfaceV, cc 
 	if r, ok := fr.ifaceIntrinsic(st, site, iv, cc, args); ok {
 		return r
 	}
-	if fr.top {
+	if fr.anchorsOn() {
 		fr.v.lastCallQual = ""
 		if n, ok := cc.Value.Type().(*types.Named); ok && n.Obj().Pkg() != nil {
 			fr.v.lastCallQual = n.Obj().Pkg().Name() + "." + n.Obj().Name() + "." + cc.Method.Name()
@@ -858,7 +864,7 @@ func (fr *Frame) invokeAbstract(st *State, site ssa.Instruction, iv *IfaceV, cc 
 		fr.anchor(st, "beforecall", cc.Method.Name(), -1)
 	}
 	if r, ok := fr.ifaceContract(st, site, iv, cc, args); ok {
-		if fr.top {
+		if fr.anchorsOn() {
 			fr.bindCallResult(st, r)
 			fr.anchor(st, "call", cc.Method.Name(), -1)
 		}
@@ -888,7 +894,7 @@ func (fr *Frame) invokeAbstract(st *State, site ssa.Instruction, iv *IfaceV, cc 
 			}
 			res = &TupleV{es}
 		}
-		if fr.top {
+		if fr.anchorsOn() {
 			fr.bindCallResult(st, res)
 			fr.anchor(st, "call", cc.Method.Name(), -1)
 		}
